@@ -40,6 +40,9 @@ def bound_args(atom: Atom, names):
 
 
 def run(ctx, model):
+    from . import signatures as _sig
+    _n_sig = _sig.check(ctx, model, "R-SIGNATURE", lambda k: any(x in k for x in ('Decimal.', 'Integer.')))
+    ctx.floor("R-SIGNATURE", _n_sig, 1, "public entry points")
     ctx.explanation = (
         "Decimal, PositiveDecimal, NegativeDecimal, UnsignedDecimal and __Decimal are walked by the abstract interpreter "
         "in meta mode (E6) with Integer/PositiveInteger/NegativeInteger/UnsignedInteger and Numeral kept as opaque atoms "
